@@ -8,6 +8,9 @@
     partial <key record text> | full <key record text>
     new <m:int> <k> (<kr>)*k <checksum> <sort:0|1>                     → descriptor dump
     addr <m:int> <k> (<kr>)*k <sort:0|1> <offset> <change:0|1> <sortkeys:0|1>
+    repr <m:int> <k> (<kr>)*k <sort>                                   → str(descriptor)
+    addr_raw <m> <net> <k> (<kr>)*k <offset> <change> <sortkeys>        get_address on the attributes as given
+                                                                       (an object whose key_records were mutated)
     parse <text>                                                       → descriptor dump
     parse_addr <text> <offset> <change:0|1>
     p2wsh <m> <k> (<sec>)*k <net>                                      → address of m <keys as given> n CHECKMULTISIG
@@ -82,6 +85,26 @@ def handle : List String → String
           let d ← construct h256 m krs [] srt
           let a ← getAddress h256 s256 hmac h160 d off chg sk
           pure (fmtS a)
+      | _ => none
+  | "repr" :: m :: toks => optS do
+      let m ← parseInt m
+      let (krs, rest) ← parseCounted oneKR toks
+      match rest with
+      | [srt] =>
+        let srt ← parseBool srt
+        pure (orReject ((construct h256 m krs [] srt).map fun d => fmtS d.repr))
+      | _ => none
+  | "addr_raw" :: m :: net :: toks => optS do
+      let m ← parseNat m
+      let net ← parseStr net
+      let (krs, rest) ← parseCounted oneKR toks
+      match rest with
+      | [off, chg, sk] =>
+        let off ← parseNat off
+        let chg ← parseBool chg
+        let sk ← parseBool sk
+        let d : Desc := { m := m, keyRecords := krs, network := net, text := [], checksum := [] }
+        pure (orReject ((getAddress h256 s256 hmac h160 d off chg sk).map fmtS))
       | _ => none
   | ["parse", t] => optS do
       let t ← parseS t
